@@ -31,7 +31,8 @@ type Cfg struct {
 	Workers         int
 	SampleEvery     int
 	Solver          string
-	Arith           string // "int" (default) or "bv"
+	Arith           string            // "int" (default) or "bv"
+	Stubs           map[string]string // repo function -> harness function replacing it (engine only)
 }
 
 func defaultCfg() Cfg {
